@@ -43,6 +43,11 @@ func Supported(u *Unit, flavour string) bool {
 	if u.GV2Only && flavour != "gv2" {
 		return false
 	}
+	if u.NoGV2 && flavour == "gv2" {
+		// field names that collide with the generated methods and that protoc-gen-go does not rename
+		// (Size, MarshalTo): no option can make this compile, not part of the supported feature set
+		return false
+	}
 	if flavour == "gv1" && len(u.File.Dependency) > 0 {
 		// legacy golang/protobuf structs + well-known types of another generation: not instantiated
 		return false
